@@ -33,10 +33,24 @@ def load_mutants():
             with open(os.path.join(d, f)) as fh:
                 for m in json.load(fh):
                     ms.append(m)
+    # breakages written by independent sub-agents (seeded/<id>/patch.diff), replayed like any other mutant
+    sd = os.path.join(VERIF, "seeded")
+    if os.path.isdir(sd):
+        for name in sorted(os.listdir(sd)):
+            mp = os.path.join(sd, name, "meta.json")
+            pp = os.path.join(sd, name, "patch.diff")
+            if os.path.exists(mp) and os.path.exists(pp):
+                meta = json.load(open(mp))
+                ms.append({"id": "seed-" + name, "property": meta["property"], "patch": pp,
+                           "expect": meta.get("detected_key", ""), "checks": meta.get("detected_by")})
     return ms
 
 
 def apply(m, root):
+    if "patch" in m:
+        r = subprocess.run("patch -p1 -s --no-backup-if-mismatch < %s" % m["patch"], shell=True, cwd=root,
+                           stdout=subprocess.PIPE, stderr=subprocess.STDOUT, text=True)
+        return r.returncode == 0
     p = os.path.join(root, m["file"])
     s = open(p).read()
     find = m["find"]
